@@ -12,7 +12,8 @@ CHECKS = {
              'decides, for every pair of locations and every (location, logical) pair at once, that the overlap of '
              'anticommuting letters is even, per configuration (class x size x deformation name x axis). Rank n-k and '
              'independence of the logicals are decided through the real in_codespace on a symbolic error (every '
-             'zero-syndrome error lies in span(H, L)) plus certified GF(2) ranks; the k x k logical table is ground. '
+             'zero-syndrome error lies in span(H, L)) plus certified GF(2) ranks; the k x k logical table is ground, '
+             'as is the fact that an object used (k, d, H, logicals read) before deform() ends with the verified matrices. '
              'Bounded model checking is the right level: the quantifier is over locations/errors of finitely many '
              'enumerated lattices, not over all L.',
         note='Trusted: z3, symx proxies, SymDict/SymList shadows of the index tables (membership of a symbolic '
@@ -36,8 +37,9 @@ CHECKS = {
              'with the third-party engines replaced by contract stubs (a solution of H c = s; minimum weight for '
              'PyMatching; ldpc\'s osdw_decoding buffer refreshed only when OSD ran); z3 decides length 2n, binary, '
              'syndrome(error+correction)=0, trivial syndrome -> trivial correction (also on a reused decoder) for all '
-             'errors. Constructibility over allowed_codes and the real union-find on weight<=2 errors are realised '
-             'instantiation lists with the real engines.',
+             'errors. Constructibility over allowed_codes, the real union-find on weight<=2 errors and the real decoders '
+             'on bool / int64 syndromes (weight<=2 errors, union-find up to Toric2DCode(4,4) quick, (4,5) thorough) are '
+             'realised instantiation lists with the real engines.',
         note='The claim is about panqec\'s wiring under the engines\' documented contracts; internals of PyMatching, ldpc, '
              'uf_support, MBP, XCube matching are not encoded (a change inside them is invisible).',
         technique='symbolic execution of real Python (symx) + z3 with contract stubs for C engines', ref='3/C05'),
